@@ -50,7 +50,12 @@ def run_stream(spec, stream, fail_at, nid, mode, val):
                 h.fill(A.fresh(r), w)
             except Exception as e:
                 nraised += 1
-                after = h.toJson()
+                try:
+                    after = h.toJson()
+                except Exception as e2:
+                    out.append(core.v_exc(PROP, "fault", "state corrupted by a fill that raised (toJson now raises)", e2,
+                                          args, {"step": i, "failing_node": node["t"]}))
+                    return out, nraised
                 d = C.diff(after, before, tol_keys=())
                 if d:
                     out.append(core.v_diff(PROP, "fault", "state changed by a fill that raised", d, after, args,
